@@ -62,3 +62,21 @@ macro_rules! entry {
         }
     };
 }
+
+impl Entry {
+    /// An entry for a type found by an impl probe at run time (its MetaType and identity are kept by the caller).
+    pub fn probe(text: &'static str) -> Entry {
+        Entry {
+            text,
+            meta: || unreachable!("probed entries carry their MetaType outside the entry"),
+            did: || unreachable!("probed entries carry their identity outside the entry"),
+            shallow: text,
+            deep: text,
+            alias_layers: 0,
+            sample: None,
+            tags: "",
+            derived: false,
+            core: false,
+        }
+    }
+}
